@@ -6,7 +6,8 @@
  *   curve   id<N>                               ep_param_set(N)
  *           t:<p>:<a>:<b>:<gx>:<gy>:<r>:<h>[:<beta>:<lambda>]   (hex VALUES) tiny world:
  *                                               fp_prime_set_dense + ep_curve_set_plain/endom
- *   point   inf | infp | infj                   identity (library form / (0:1:0) PROJC / (1:1:0) JACOB)
+ *   point   inf | infp | infj | inf0p | inf0j   identity (library form / (0:1:0) PROJC / (1:1:0) JACOB /
+ *                                               (0,0,0) tagged PROJC / JACOB as the library's own routines return it)
  *           m<k>[/<rep>]                        [k]G, k hex with optional '-' (INPUT construction with
  *                                               ep_mul_basic + ep_norm; the spec reads the raw result back)
  *           xy<x>,<y>[/<rep>]                   affine VALUES as given (may be off the curve)
@@ -79,11 +80,28 @@ static void ep_install(void) {
 	signal(SIGABRT, ep_fatal); signal(SIGILL, ep_fatal); signal(SIGALRM, ep_fatal);
 }
 
+/* ------------------------------------------------------------ randomness
+ * Builds with RAND=CALL (tiny worlds for ep_mul_monty, whose ep_blind multiplies by a random field
+ * element): a deterministic source of NON-ZERO bytes 1..100 (< p for every 8-bit prime used), because
+ * over an 8-bit field a uniformly random element is 0 with probability 1/p and the blinded ladder then
+ * degenerates - an artefact of the tiny field, not of the algorithm. */
+#if RAND == CALL
+static uint32_t vh_rs = 12345;
+static void vh_rand_cb(uint8_t *buf, size_t size, void *arg) {
+	size_t i;
+	(void)arg;
+	for (i = 0; i < size; i++) {
+		vh_rs = vh_rs * 1103515245u + 12345u;
+		buf[i] = (uint8_t)(1 + ((vh_rs >> 16) % 100));
+	}
+}
+#endif
+
 /* ------------------------------------------------------------ curve */
 static int set_tiny(char *spec) {
 	/* t:p:a:b:gx:gy:r:h[:beta:lambda] */
 	char *f[12];
-	int nf = 0, err = 0;
+	int nf = 0, err = 0, code;
 	char *s = spec;
 	fp_t a, b, beta;
 	bn_t p, r, h, l;
@@ -100,7 +118,8 @@ static int set_tiny(char *spec) {
 	fp_null(a); fp_null(b); fp_null(beta);
 	vh_bn_set(p, f[1]);
 	VH_TRY(err, fp_prime_set_dense(p));
-	if (err || vh_code()) return 0;
+	code = vh_code();           /* always read: reading clears the sticky code */
+	if (err || code) return 0;
 	fp_new(a); fp_new(b); fp_new(beta);
 	vh_fp_set(a, f[2]); vh_fp_set(b, f[3]);
 	vh_fp_set(g->x, f[4]); vh_fp_set(g->y, f[5]); fp_set_dig(g->z, 1); g->coord = BASIC;
@@ -111,7 +130,8 @@ static int set_tiny(char *spec) {
 	} else {
 		VH_TRY(err, ep_curve_set_plain(a, b, g, r, h, 0));
 	}
-	if (err || vh_code()) return 0;
+	code = vh_code();
+	if (err || code) return 0;
 	return 1;
 }
 
@@ -123,8 +143,10 @@ static int set_curve(const char *spec) {
 	cur_ok = 0;
 	if (spec[0] == 'i' && spec[1] == 'd') {
 		int id = atoi(spec + 2);
+		int code;
 		VH_TRY(err, ep_param_set(id));
-		cur_ok = (err == 0) && (vh_code() == 0);
+		code = vh_code();       /* always read: reading clears the sticky code */
+		cur_ok = (err == 0) && (code == 0);
 	} else if (spec[0] == 't' && spec[1] == ':') {
 		static char tmp[8192];
 		strcpy(tmp, spec);
@@ -146,6 +168,9 @@ static void set_point(ep_t p, char *tok) {
 	if (strcmp(tok, "inf") == 0) { ep_set_infty(p); return; }
 	if (strcmp(tok, "infp") == 0) { fp_zero(p->x); fp_set_dig(p->y, 1); fp_zero(p->z); p->coord = PROJC; return; }
 	if (strcmp(tok, "infj") == 0) { fp_set_dig(p->x, 1); fp_set_dig(p->y, 1); fp_zero(p->z); p->coord = JACOB; return; }
+	/* the all-zero triple with a projective tag: what ep_add_jacob returns for P + (-P) (ep_set_infty, then the tag) */
+	if (strcmp(tok, "inf0p") == 0) { ep_set_infty(p); p->coord = PROJC; return; }
+	if (strcmp(tok, "inf0j") == 0) { ep_set_infty(p); p->coord = JACOB; return; }
 	if (tok[0] == 'm') {
 		bn_t k;
 		bn_null(k); bn_new(k);
@@ -512,6 +537,9 @@ int main(int argc, char **argv) {
 	real_out = vh_out;
 	ep_install();
 	if (core_init() != RLC_OK) return 2;
+#if RAND == CALL
+	rand_seed(vh_rand_cb, NULL);
+#endif
 	ep_null(P); ep_null(Q); ep_null(R); ep_null(P0); ep_null(Q0); ep_null(T); ep_null(G);
 	ep_new(P); ep_new(Q); ep_new(R); ep_new(P0); ep_new(Q0); ep_new(T); ep_new(G);
 	bn_null(K); bn_null(M); bn_null(K0); bn_null(M0); bn_null(N); bn_null(H);
